@@ -151,7 +151,15 @@ def connector(ck):
         # ... and only when the address queue is exhausted
         pm = q.parent_map(tc.node)
         inh = any(isinstance(a, ast.ExceptHandler) and q.exc_is_caught("StopIteration", q.handler_names(a)) for a in q.ancestors(pm, m.ast))
-        ck.ob("C10.final-error-guard", tc, m.ast, inh, "the all-addresses-failed error is set only after next(addrs) raised StopIteration")
+        if not inh:
+            # `x = next(addrs, None)` followed by `if x is None:` is the same test
+            for st_ in q.walk_body(tc.node):
+                if isinstance(st_, ast.Assign) and q.is_call(st_.value, "next") and len(st_.value.args) == 2 and isinstance(st_.value.args[1], ast.Constant) and st_.value.args[1].value is None and isinstance(st_.targets[0], ast.Name):
+                    if has(gft[m.id], "%s is None" % st_.targets[0].id, True):
+                        inh = True
+        if not inh and not any(q.is_call(c_, "next") for c_ in q.calls(tc.node)):
+            raise AnalysisError("try_connect does not take the next address with next(); exhaustion of the queue cannot be recognised")
+        ck.ob("C10.final-error-guard", tc, m.ast, inh, "the all-addresses-failed error is set only after the address queue is exhausted (next(addrs) raised StopIteration / returned the None default)")
 
     # ---- streams ownership
     conn_calls = tc.cfg.find(lambda x: q.is_call(x, "self.connect"))
@@ -332,7 +340,27 @@ def connector(ck):
     rets = [x for x in q.walk_body(sp.node) if isinstance(x, ast.Return) and isinstance(x.value, ast.Tuple) and len(x.value.elts) == 2]
     ck.need(len(rets) == 1, "split() does not return a pair of lists")
     lists = [q.dotted(e) for e in rets[0].value.elts]
-    app = lambda m: m.kind == "stmt" and any(q.call_attr(c) == "append" and q.receiver(c) in lists for c in q.calls(m.ast))
+    def _targets_list(recv: Optional[str]) -> bool:
+        """receiver is one of the returned lists, or a local that is always one of them (`x = a if c else b`)"""
+        if recv in lists:
+            return True
+        if recv and "." not in recv:
+            defs = [st_ for st_ in q.stores_to(sp.node, recv) if isinstance(st_, ast.Assign)]
+            if defs and all((isinstance(st_.value, ast.IfExp) and q.dotted(st_.value.body) in lists and q.dotted(st_.value.orelse) in lists) or q.dotted(st_.value) in lists for st_ in defs):
+                return True
+        return False
+
+    app = lambda m: m.kind == "stmt" and any(q.call_attr(c) == "append" and _targets_list(q.receiver(c)) for c in q.calls(m.ast))
+    # the loop visits every resolved address: it iterates the parameter itself (remaining = len(addrinfo) counts them all)
+    sparam = [p_ for p_ in sp.params() if p_ not in ("self", "cls")]
+    ck.need(sparam, "split() lost its addrinfo parameter")
+    it = lp.iter
+    if q.dotted(it) == sparam[0] or (isinstance(it, ast.Call) and q.dotted(it.func) in ("list", "tuple", "iter") and len(it.args) == 1 and q.dotted(it.args[0]) == sparam[0]):
+        ck.ob("C10.remaining-once", sp, lp, True, "split() visits every entry of addrinfo")
+    elif isinstance(it, ast.Call) and (q.dotted(it.func) in ("set", "frozenset", "dict.fromkeys", "filter", "sorted", "reversed") or isinstance(it, ast.Subscript)) and any(q.dotted(x) == sparam[0] for x in ast.walk(it)):
+        ck.ob("C10.remaining-once", sp, lp, q.dotted(it.func) in ("sorted", "reversed"), "split() visits every entry of addrinfo - %s(...) can drop entries while remaining still counts len(addrinfo), so the all-failed error would never be sent" % q.dotted(it.func))
+    else:
+        raise AnalysisError("split() iterates %s, not its addrinfo parameter" % q.unparse(it))
     head = [m for m in sp.cfg.nodes if m.kind == "for" and m.ast is lp]
     ck.need(head, "split loop not on the CFG")
 
@@ -348,6 +376,12 @@ def connector(ck):
         return val
     explore(sp.cfg, -1, tr_body, lambda t: False, follow_exc=False)
     body_counts.discard(-1)
+    if 0 in body_counts and 2 not in body_counts:
+        # no append seen on some path: only a finding if the loop body is fully understood
+        known = all(isinstance(x, (ast.If, ast.Expr, ast.Assign, ast.AnnAssign, ast.Pass)) for x in ast.walk(ast.Module(body=lp.body, type_ignores=[])) if isinstance(x, ast.stmt))
+        calls_ok = all(q.call_attr(c_) == "append" for c_ in q.calls(ast.Module(body=lp.body, type_ignores=[])))
+        if not (known and calls_ok):
+            raise AnalysisError("split(): cannot see where an address is queued on some path of the loop body")
     ck.ob("C10.remaining-once", sp, lp, body_counts == {1}, "split() puts every address into exactly one of the two queues (appends per iteration: %s), so remaining = len(addrinfo) equals the number of attempts that can complete" % sorted(body_counts), construct="split appends per address")
     unp = [st for st in q.stores_to(init.node, "self.primary_addrs")]
     ok = len(unp) == 1 and isinstance(unp[0], ast.Assign) and isinstance(unp[0].targets[0], ast.Tuple) and [q.dotted(e) for e in unp[0].targets[0].elts] == ["self.primary_addrs", "self.secondary_addrs"] and q.is_call(unp[0].value, "self.split")
@@ -559,8 +593,15 @@ def timeouts_wired(ck):
         ck.ob("C10.timeout-wired", tcc, c, a is not None and q.dotted(a) == tparam, "TCPClient.connect hands its timeout to the connector as the overall connect timeout")
     gf = guard_facts(st_)
     sct = st_.cfg.stmt_nodes(node_calls("self.set_connect_timeout"))
+    if not sct:
+        # armed directly?
+        sct = st_.cfg.stmt_nodes(lambda m: m.kind == "stmt" and any(q.call_attr(c_) in ("add_timeout", "call_later", "call_at") and any(q.dotted(a_) == "self.on_connect_timeout" for a_ in c_.args) for c_ in q.calls(m.ast)))
+        if not sct and any(q.receiver(c_) == "self" and q.call_attr(c_) not in ("try_connect", "set_timeout") for c_ in q.calls(st_.node)):
+            raise AnalysisError("start() does not arm the connect timeout itself; the methods it calls are not followed")
     ck.ob("C10.timeout-wired", st_, st_.node, len(sct) >= 1, "start() arms the overall connect timeout", construct="start arms connect timeout")
     for m in sct:
+        if not q.find_calls(m.ast, "self.set_connect_timeout"):
+            continue
         c = q.find_calls(m.ast, "self.set_connect_timeout")[0]
         ck.ob("C10.timeout-wired", st_, m.ast, len(c.args) == 1 and q.dotted(c.args[0]) == "connect_timeout", "the connect timeout given to start() is the one armed")
     # whenever a timeout was given it is armed
@@ -717,6 +758,7 @@ MUTANTS = [
     ("close_streams stops after nothing", _in(CN + ".close_streams", _close_streams_noop), "C10.losers-closed"),
     ("remaining only decremented on success", _in(CN + ".on_connect_done", _dec_on_success_only), "C10.remaining-once"),
     ("first-family addresses queued in both families", _in(CN + ".split", replace_stmt(lambda st: isinstance(st, ast.Expr) and "primary.append" in _src(st), lambda st: [st, parse_stmt("secondary.append((af, addr))")])), "C10.remaining-once"),
+    ("seeded C10-adv4: split() iterates dict.fromkeys(addrinfo) (duplicates dropped, remaining still len(addrinfo))", _in(CN + ".split", replace_expr(lambda n: isinstance(n, ast.Name) and n.id == "addrinfo" and isinstance(n.ctx, ast.Load), lambda n: parse_expr("dict.fromkeys(addrinfo)"), limit=2)), "C10.remaining-once"),
     ("final error without remaining == 0", _in(CN + ".try_connect", _final_error_without_remaining), "C10.final-error-guard"),
     ("failed attempt does not try the next address", _in(CN + ".on_connect_done", remove_stmts(lambda st: _src(st) == "self.try_connect(addrs)")), "C10.failure-retries"),
     ("only OSError counts as a failed attempt", _in(CN + ".on_connect_done", replace_expr(lambda n: isinstance(n, ast.ExceptHandler), lambda n: ast.ExceptHandler(type=ast.Name(id="OSError", ctx=ast.Load()), name=n.name, body=n.body))), "C10.failure-retries"),
